@@ -51,6 +51,7 @@ bool muggle_hash_table_init(muggle_hash_table_t *p_hash_table, size_t table_size
 		if (!muggle_memory_pool_init(p_hash_table->pool, (unsigned int)capacity, sizeof(muggle_hash_table_node_t)))
 		{
 			free(p_hash_table->pool);
+			p_hash_table->pool = NULL;
 			return false;
 		}
 	}
@@ -59,7 +60,6 @@ bool muggle_hash_table_init(muggle_hash_table_t *p_hash_table, size_t table_size
 	{
 		table_size = MUGGLE_HASH_TABLE_SIZE_10007;
 	}
-	p_hash_table->table_size = table_size;
 	p_hash_table->nodes = (muggle_hash_table_node_t*)malloc(sizeof(muggle_hash_table_node_t) * table_size);
 	if (p_hash_table->nodes == NULL)
 	{
@@ -71,6 +71,7 @@ bool muggle_hash_table_init(muggle_hash_table_t *p_hash_table, size_t table_size
 		}
 		return false;
 	}
+	p_hash_table->table_size = table_size;
 	for (uint64_t i = 0; i < table_size; i++)
 	{
 		memset(&p_hash_table->nodes[i], 0, sizeof(muggle_hash_table_node_t));
